@@ -84,6 +84,51 @@ func rulesC08(c *Ctx) {
 			sinks = append(sinks, sink{f, ci, v.Type(), pi})
 		}
 	}
+	// a sink that marshals an interface-typed parameter (a generic "post this as JSON" helper) stands for its
+	// call sites: each passes a value of a concrete request type
+	for i := 0; i < len(sinks) && len(sinks) < 200; i++ {
+		s := sinks[i]
+		if s.param < 0 {
+			continue
+		}
+		if _, isIface := s.t.Underlying().(*types.Interface); !isIface {
+			continue
+		}
+		sites := c.callersOf(s.fn)
+		if len(sites) == 0 {
+			continue
+		}
+		for _, site := range sites {
+			args := site.Common().Args
+			if s.param >= len(args) {
+				continue
+			}
+			a := args[s.param]
+			if mi, ok := a.(*ssa.MakeInterface); ok {
+				a = mi.X
+			}
+			v := UnwrapConv(a)
+			cf := site.Parent()
+			pi := -1
+			e := c.P.OriginsOf(cf).Of(a)
+			for k, prm := range cf.Params {
+				if e.K == "param" && e.S == prm.Name() {
+					pi = k
+				}
+			}
+			sinks = append(sinks, sink{cf, site, v.Type(), pi})
+		}
+		sinks[i].t = nil // replaced by its call sites
+	}
+	{
+		kept := sinks[:0]
+		for _, s := range sinks {
+			if s.t != nil {
+				kept = append(kept, s)
+			}
+		}
+		sinks = kept
+	}
 	if len(sinks) == 0 {
 		R.Unresolved("R1", "request marshalling in the network layer", "no json.Marshal call found in wallet/client or wallet/submanager")
 	}
